@@ -95,6 +95,7 @@ type G struct {
 	lastCfg           *Blob   // config of the image generated last
 	Alg               string
 	NoExt             bool // never generate external (URL) layers
+	ArtifactInlineConfig bool // Artifact: the (empty JSON) config descriptor carries its content as inline data
 	ExtHost           string // host (optionally host:port) of external layer URLs; default ext.test
 	ArtifactAnnotMode int  // Artifact: 0 the serial annotation, 1 an empty annotations object, 2 none, 3 another annotation only
 }
@@ -295,6 +296,10 @@ func (g *G) ArtifactCarrying(data []byte, mediaType, artType string) *Node {
 func (g *G) artifact(subject *Node, artType string, layer *Blob) *Node {
 	n := &Node{Kind: "artifact", MediaType: MTOCIManifest, ArtType: artType}
 	empty := &Blob{Data: []byte("{}"), Hosted: true, Desc: Desc{MediaType: MTOCIEmpty, Digest: regmodel.Digest(g.Alg, []byte("{}")), Size: 2}}
+	if g.ArtifactInlineConfig {
+		// the config descriptor carries its content inline (as a push with a data limit writes it)
+		empty.Desc.Data = base64.StdEncoding.EncodeToString(empty.Data)
+	}
 	n.Blobs = append(n.Blobs, empty)
 	b := layer
 	if b == nil {
